@@ -6,7 +6,17 @@ languages, several switch vectors and depth limits.  Oracle: no exception from a
 harness does NOT wrap stages in the driver's catch-all), no RecursionError under the default
 recursion limit, no execution beyond the horizon of 20 000 choice points, AST nesting of the
 generated program bounded by a function of max_depth, erasure search bounded by
-max_combinations.
+max_combinations (checked with the transformation's own budget option set low enough to be reached).
+
+SESSION part (history dimension): the real driver (hephaestus.py: _run, gen_program, gen_program_mul,
+ProgramProcessor, generator, mutations, translation; --dry-run) generates N programs in ONE batch and,
+separately, N programs as one pool worker would (gen_program_mul N times in one process, nobody else
+resetting anything), with the REAL word() (drawn without replacement) over a pool scaled down to
+POOL words (a subset of the real pool; one program needs ~25-60, the guard below checks that).  N is
+chosen so that the words drawn exceed the pool several times over: any state accumulating from
+program to program (identifier pool, caches) turns into an internal failure inside the explored
+history.  A failure is only reported when no single program drew more than POOL/4 words.  Oracle: no
+program of the session fails internally, _run raises nothing, passed == N.
 """
 from mc import common, explore, pipeline
 from mc.common import Result, Violation
@@ -53,6 +63,8 @@ def _patch_counters():
 
     def counted(type_graph, combination):
         st['calls'] += 1
+        if len(combination) == 1:
+            st['singles'] = st.get('singles', 0) + 1
         return orig(type_graph, combination)
     tda.is_combination_feasible = counted
     orig_visit = te.TypeErasure.visit_func_decl
@@ -60,11 +72,16 @@ def _patch_counters():
 
     def visit_func_decl(self, node):
         before = st['calls']
+        before1 = st.get('singles', 0)
         r = orig_visit(self, node)
-        used = st['calls'] - before
+        # the search proper: every omittable node is first tested alone (size-1 calls), then combinations are
+        # enumerated until the budget is used up: at most max_combinations + 1 further calls
+        used = (st['calls'] - before) - (st.get('singles', 0) - before1)
         if used > per_func['max']:
             per_func['max'] = used
             per_func['limit'] = self.max_combinations
+        if self.max_combinations and used > self.max_combinations + 1:
+            per_func['over'] = (used, self.max_combinations)
         return r
     te.TypeErasure.visit_func_decl = visit_func_decl
     _patched['st'] = st
@@ -80,6 +97,7 @@ class Oracle:
 
     def _before(self, x):
         _patched['per_func']['max'] = 0
+        _patched['per_func'].pop('over', None)
         pipeline.VirtualTimer.started = 0
         pipeline.VirtualTimer.cancelled = 0
 
@@ -104,9 +122,12 @@ class Oracle:
         pf = _patched['per_func']
         if pf['max'] > self.stats['max_comb_per_func']:
             self.stats['max_comb_per_func'] = pf['max']
-        if pf['max'] and pf['max'] > pf.get('limit', 500000) + 64:
+        if pf.get('limit') is not None and pf['limit'] < 500000 and pf['max'] >= pf['limit']:
+            self.stats['functions_reaching_erasure_budget'] = self.stats.get('functions_reaching_erasure_budget', 0) + 1
+        if pf.get('over'):
             vs.append({'rule': 'erasure-search-bound', 'site': 'src/transformations/type_erasure.py:visit_func_decl',
-                       'shape': 'more than max_combinations feasibility checks for one function'})
+                       'shape': 'more than max_combinations feasibility checks for one function',
+                       'checks': pf['over'][0], 'max_combinations': pf['over'][1]})
         if pipeline.VirtualTimer.started != pipeline.VirtualTimer.cancelled and x.error is None:
             vs.append({'rule': 'visitor-timer-leaked', 'site': 'src/transformations/base.py:wrapped_visitor',
                        'shape': 'timer started but not cancelled'})
@@ -126,10 +147,19 @@ def plan(tier):
             ([Config(l, s, 'S') for l in langs for s in sw], ['first', 'alt', ('prng', 1), ('prng', 2), ('prng', 3)], 1, 4),
             ([Config(l, (0, 0, 0, 0), 'XS') for l in langs], [('prng', 1), ('prng', 2)], 1, 2),
             ([Config(l, (0, 0, 0, 0), 'D') for l in langs], [('prng', 1), ('prng', 2), ('prng', 3)], 0, 1),
+            # erasure search budget: the transformation's max_combinations option set to a value that functions
+            # with a handful of omittable nodes exhaust (the default 500000 needs >= 19 such nodes)
+            ([Config(l, (0, 0, 0, 0), 'S') for l in langs], [('prng', 1)], 1, 4, {'erasure_budget': 3}),
+            ([Config(l, (0, 0, 0, 0), lim) for l in langs for lim in ('M', 'D')], [('prng', c) for c in range(1, 9)], 0, 1,
+             {'erasure_budget': 5}),
         ]
     sw = [(a, b, c, d) for a in (0, 1) for b in (0, 1) for c in (0, 1) for d in (0, 1)]
     from mc import plans
-    return plans.thorough(langs, 'light')
+    return plans.thorough(langs, 'light') + [
+        ([Config(l, (0, 0, 0, 0), 'S') for l in langs], [('prng', 1), ('prng', 2), 'alt'], 1, 8, {'erasure_budget': 3}),
+        ([Config(l, (0, 0, 0, 0), 'M') for l in langs], [('prng', 1)], 1, 16, {'erasure_budget': 5}),
+        ([Config(l, (0, 0, 0, 0), 'D') for l in langs], [('prng', c) for c in range(1, 25)], 0, 1, {'erasure_budget': 8}),
+    ]
 
 
 def to_violation(v):
@@ -146,8 +176,11 @@ def run(tier, seed, jobs):
     bounds = []
     capped = 0
     validated = 0
-    for configs, policies, bound, nslices in plan(tier):
-        tot = explore.explore(configs, policies, bound, SPEC, {}, jobs, seed, nslices)
+    started = start_sessions(tier)
+    for part in plan(tier):
+        configs, policies, bound, nslices = part[:4]
+        run_kw = part[4] if len(part) > 4 else {}
+        tot = explore.explore(configs, policies, bound, SPEC, {}, jobs, seed, nslices, run_kw=run_kw)
         execs += tot.execs
         trans += tot.transitions
         states |= tot.states
@@ -161,9 +194,12 @@ def run(tier, seed, jobs):
         stats['max_points'] = max(stats['max_points'], tot.max_points)
         samples.extend(tot.samples[:1])
         bounds.append({'configs': len(configs), 'limits': configs[0].limits, 'policies': len(policies),
-                       'deviation_bound': bound, 'executions': tot.execs, 'stage_points': tot.stage_points})
-        validated += explore.validate_fresh(tot, res)
+                       'deviation_bound': bound, 'executions': tot.execs, 'stage_points': tot.stage_points,
+                       'run_options': run_kw})
+        validated += explore.validate_fresh(tot, res, run_kw)
+    sessions = collect_sessions(started, res)
     res.coverage = {
+        'sessions': sessions,
         'states': len(states),
         'transitions': trans,
         'traces_validated_against_impl': validated,
@@ -181,10 +217,193 @@ def run(tier, seed, jobs):
     return res
 
 
+# ---- session part -----------------------------------------------------------------------------
+
+SESSION_N = {'quick': 360, 'thorough': 1200}
+POOL = 2500
+
+
+def _session_main(lang, n, scratch):
+    """runs in its own interpreter (hephaestus.py parses the command line at import)"""
+    import contextlib
+    import io
+    import itertools
+    import json
+    import os
+    import random as pyrandom
+    import sys
+    import types as _types
+    common.install_arena_cache()
+    common.import_repo()
+    pyrandom.seed(0)                 # the word pool is sampled from the global random at import
+    bugs = os.path.join(scratch, 'bugs')
+    sys.argv = ['hephaestus.py', '--bugs', bugs, '--name', 's', '--language', lang, '--batch', str(n),
+                '--iterations', str(n), '--max-depth', '3', '--dry-run', '--transformations', '1',
+                '--log-file', os.path.join(scratch, 'logs')]
+    os.chdir(scratch)
+    import src.ir.ast  # noqa
+    import hephaestus as H
+    from src import utils
+    from src.ir import node as irnode
+    from src.generators.config import cfg
+    import src.transformations.base as tbase
+    tbase.threading = _types.SimpleNamespace(Timer=pipeline.VirtualTimer)
+    ctr = itertools.count(1)
+
+    def _vh(self):
+        d = self.__dict__
+        h = d.get('_vh')
+        if h is None:
+            h = d['_vh'] = next(ctr)
+        return h
+    irnode.Node.__hash__ = _vh
+    cfg.limits.min_top_level, cfg.limits.max_top_level = 2, 3
+
+    class DetRandom(pyrandom.Random):
+        k = 0
+
+        def seed(self, a=None, version=2):
+            if a is None:            # gen_program_mul reseeds from OS entropy: made deterministic
+                DetRandom.k += 1
+                a = DetRandom.k
+            super().seed(a, version)
+    utils.random.r = DetRandom(1)
+    H.logging = lambda: None
+    H.print_msg = lambda: None
+    ws = sorted(utils.random.INITIAL_WORDS)[:POOL]      # after src.args removed the reserved words
+    utils.random.INITIAL_WORDS = set(ws)
+    utils.random.WORDS = set(ws)
+    drawn = [0]
+    max_single = [0]
+    real_word = utils.random.word
+
+    def word():
+        drawn[0] += 1
+        return real_word()
+    utils.random.word = word
+    results = []
+    real_gen = H.gen_program
+
+    def gen_program(pid, dirname, packages):
+        d0 = drawn[0]
+        r = real_gen(pid, dirname, packages)
+        max_single[0] = max(max_single[0], drawn[0] - d0)
+        results.append((pid, bool(r.failed), None if not r.failed else str(r.stats.get('error'))[:200]))
+        return r
+    H.gen_program = gen_program
+    out = {'lang': lang, 'n': n, 'pool_size': len(ws)}
+    raised = None
+    buf = io.StringIO()
+    with contextlib.redirect_stdout(buf):
+        try:
+            H.run()
+        except BaseException as e:  # noqa
+            raised = '%s: %s' % (type(e).__name__, str(e)[:200])
+    out['batch'] = {'raised': raised, 'programs': len(results),
+                    'failed': [r for r in results if r[1]][:3], 'n_failed': sum(1 for r in results if r[1]),
+                    'passed_counter': H.STATS['totals']['passed'], 'failed_counter': H.STATS['totals']['failed'],
+                    'words_drawn': drawn[0]}
+    # one pool worker's life: gen_program_mul again and again in one process
+    del results[:]
+    drawn[0] = 0
+    raised = None
+    tmp = os.path.join(scratch, 'w')
+    with contextlib.redirect_stdout(buf):
+        try:
+            for i in range(n):
+                H.gen_program_mul(10000 + i, os.path.join(tmp, 'src'), ('pa%d' % i, 'pb%d' % i))
+        except BaseException as e:  # noqa
+            raised = '%s: %s' % (type(e).__name__, str(e)[:200])
+    out['worker'] = {'raised': raised, 'programs': len(results), 'failed': [r for r in results if r[1]][:3],
+                     'n_failed': sum(1 for r in results if r[1]), 'words_drawn': drawn[0]}
+    out['max_words_one_program'] = max_single[0]
+    print('SESSION-RESULT ' + json.dumps(out))
+
+
+def _one_session(arg):
+    import json
+    import os
+    import shutil
+    import subprocess
+    import sys
+    import tempfile
+    lang, n = arg
+    scratch = tempfile.mkdtemp(prefix='verif_c18s_', dir=common.scratch_root())
+    try:
+        env = dict(os.environ)
+        env['PYTHONHASHSEED'] = '0'
+        env['PYTHONDONTWRITEBYTECODE'] = '1'
+        p = subprocess.run([sys.executable, '-m', 'mc.props.c18', '--session', lang, str(n), scratch], env=env,
+                           cwd=common.VERIF, stdout=subprocess.PIPE, stderr=subprocess.PIPE, timeout=7200)
+        for line in p.stdout.decode().splitlines():
+            if line.startswith('SESSION-RESULT '):
+                return json.loads(line[len('SESSION-RESULT '):])
+        return {'lang': lang, 'n': n, 'harness_error': p.stderr.decode()[-1500:]}
+    finally:
+        shutil.rmtree(scratch, ignore_errors=True)
+
+
+def start_sessions(tier):
+    """the four session interpreters run alongside the CTE parts"""
+    from concurrent.futures import ThreadPoolExecutor
+    n = SESSION_N[tier]
+    ex = ThreadPoolExecutor(4)
+    return ex, [ex.submit(_one_session, (l, n)) for l in pipeline.LANGS]
+
+
+def collect_sessions(started, res):
+    ex, futs = started
+    outs = [f.result() for f in futs]
+    ex.shutdown()
+    summary = []
+    for o in outs:
+        if 'harness_error' in o:
+            res.harness_errors.append('session %s: %s' % (o['lang'], o['harness_error']))
+            continue
+        if o['max_words_one_program'] * 4 > o['pool_size']:
+            summary.append({'lang': o['lang'], 'inconclusive': 'one program drew %d words of a pool of %d'
+                            % (o['max_words_one_program'], o['pool_size'])})
+            continue
+        for mode in ('batch', 'worker'):
+            m = o[mode]
+            sched = {'session': {'lang': o['lang'], 'n': o['n'], 'mode': mode}}
+            if m['raised']:
+                res.add(Violation(PROP, 'session-raises', 'hephaestus.py:' + ('_run' if mode == 'batch' else 'gen_program_mul'),
+                                  '%s escapes a %s session' % (m['raised'].split(':')[0], mode),
+                                  {'schedule': sched, 'message': m['raised']}))
+            if m['n_failed']:
+                first = m['failed'][0]
+                res.add(Violation(PROP, 'session-program-fails-internally', 'hephaestus.py:gen_program',
+                                  'a program of a long %s session fails internally: %s' % (mode, (first[2] or '').split(':')[0][:60]),
+                                  {'schedule': sched, 'first_failed_program': first[0], 'message': first[2],
+                                   'failed_programs': m['n_failed']}))
+            if mode == 'batch' and not m['raised'] and (m['passed_counter'] + m['failed_counter'] != o['n']):
+                res.add(Violation(PROP, 'session-counters', 'hephaestus.py:update_stats',
+                                  'passed + failed != programs of the session', {'schedule': sched, 'counters': m}))
+        summary.append({'lang': o['lang'], 'programs_per_mode': o['n'], 'pool_size': o['pool_size'],
+                        'words_drawn_batch': o['batch']['words_drawn'], 'words_drawn_worker': o['worker']['words_drawn'],
+                        'max_words_one_program': o['max_words_one_program'],
+                        'pool_turned_over': round(o['batch']['words_drawn'] / max(1, o['pool_size']), 2)})
+    return summary
+
+
 def replay(path):
     import json
     d = json.load(open(path))['detail']
-    x = explore.run_schedule(d['schedule'], hooks=Oracle({}).hooks)
-    vs = Oracle({}).judge(x)
+    if 'session' in d.get('schedule', {}):
+        s_ = d['schedule']['session']
+        o_ = _one_session((s_['lang'], s_['n']))
+        print('REPLAY', o_)
+        bad = o_.get('harness_error') or any(o_[m]['raised'] or o_[m]['n_failed'] for m in ('batch', 'worker'))
+        return 1 if bad else 0
+    o = Oracle({})
+    x = explore.run_schedule(d['schedule'], hooks=o.hooks, **(d.get('run_options') or {}))
+    vs = o.judge(x)
     print('REPLAY', x.error, vs)
     return 1 if vs else 0
+
+
+if __name__ == '__main__':
+    import sys as _sys
+    if len(_sys.argv) >= 5 and _sys.argv[1] == '--session':
+        _session_main(_sys.argv[2], int(_sys.argv[3]), _sys.argv[4])
